@@ -3,6 +3,7 @@ package synchronizer
 
 import (
 	"context"
+	"fmt"
 	"time"
 
 	"github.com/relab/hotstuff/core"
@@ -210,8 +211,8 @@ func (s *Synchronizer) OnRemoteTimeout(timeout hotstuff.TimeoutMsg) {
 	currView := s.state.View()
 	defer s.timeouts.deleteOldViews(currView)
 
-	if err := s.auth.Verify(timeout.ViewSignature, timeout.View.ToBytes()); err != nil {
-		s.logger.Infof("View timeout signature could not be verified: %v", err)
+	if err := s.verifyTimeoutSignatures(timeout); err != nil {
+		s.logger.Infof("Timeout message could not be verified: %v", err)
 		return
 	}
 	s.logger.Debug("OnRemoteTimeout (advancing view): ", timeout)
@@ -234,6 +235,30 @@ func (s *Synchronizer) OnRemoteTimeout(timeout hotstuff.TimeoutMsg) {
 
 	s.logger.Debugf("OnRemoteTimeout (second advance)")
 	s.advanceView(si)
+}
+
+// verifyTimeoutSignatures checks that the timeout message was signed by its sender.
+func (s *Synchronizer) verifyTimeoutSignatures(timeout hotstuff.TimeoutMsg) error {
+	signedBySender := func(sig hotstuff.QuorumSignature) bool {
+		if sig == nil {
+			return false
+		}
+		p := sig.Participants()
+		return p.Len() == 1 && p.Contains(timeout.ID)
+	}
+	if !signedBySender(timeout.ViewSignature) {
+		return fmt.Errorf("view signature is not from the sender %d", timeout.ID)
+	}
+	if err := s.auth.Verify(timeout.ViewSignature, timeout.View.ToBytes()); err != nil {
+		return err
+	}
+	if s.config.HasAggregateQC() {
+		if !signedBySender(timeout.MsgSignature) {
+			return fmt.Errorf("message signature is not from the sender %d", timeout.ID)
+		}
+		return s.auth.Verify(timeout.MsgSignature, timeout.ToBytes())
+	}
+	return nil
 }
 
 // OnNewView handles an incoming consensus.NewViewMsg
